@@ -70,12 +70,15 @@ fn run_c19(ctx: &mut Ctx, rep: &mut Report) {
     let rt = tokio::runtime::Builder::new_multi_thread().worker_threads(2).enable_all().build().unwrap();
     let good: IpAddr = Ipv4Addr::new(127, 0, 0, 1).into();
     let bad: IpAddr = Ipv4Addr::new(127, 0, 0, 2).into();
-    let rounds = ctx.tier.pick(3usize, 120);
+    let rounds = ctx.tier.pick(3usize, 60);
     for round in 0..rounds {
         if !ctx.time_left() { rep.note("time budget reached"); break }
+        // un-faulted clients rotate over loopback aliases so that closed connections (TIME_WAIT) do not use up the
+        // ephemeral ports of one source address
+        let good: IpAddr = Ipv4Addr::new(127, 0, 0, 10 + (round % 40) as u8).into();
         // Leg 1: fault-injected subset. New server per round (a stalled listener stays stalled).
         let mut srv = match start_two_listener_server(ctx, None, false, 1) {
-            Ok(s) => s, Err(e) => { rep.inconclusive(format!("server start: {e}")); return }
+            Ok(s) => s, Err(e) => { rep.note(format!("server start failed, round skipped: {e}")); rep.count("server_start_failures", 1); std::thread::sleep(Duration::from_millis(200)); continue }
         };
         if srv.install(&hooks, &Model::rand(&mut rng)).is_err() { rep.inconclusive("update failed"); return }
         let a = srv.rtr_addr;
@@ -139,14 +142,14 @@ fn run_c19(ctx: &mut Ctx, rep: &mut Report) {
         // backlog) before any protocol step, so a failing setup is processed while other connections are waiting.
         {
             let mut srv = match start_two_listener_server(ctx, None, false, 1) {
-                Ok(s) => s, Err(e) => { rep.inconclusive(format!("server start: {e}")); return }
+                Ok(s) => s, Err(e) => { rep.note(format!("server start failed, round skipped: {e}")); rep.count("server_start_failures", 1); std::thread::sleep(Duration::from_millis(200)); continue }
             };
             if srv.install(&hooks, &Model::rand(&mut rng)).is_err() { rep.inconclusive("update failed"); return }
             let a = srv.rtr_addr;
             let b = srv.config.rtr_listen[0];
             hooks.clear_detail_faults();
             hooks.add_detail_fault("rtr.setup", "127.0.0.2:", 1);
-            let bursts = ctx.tier.pick(8usize, 60);
+            let bursts = ctx.tier.pick(8usize, 40);
             'bursts: for burst in 0..bursts {
                 let n = 2 + rng.usize(4);
                 let mut pattern: Vec<bool> = (0..n).map(|_| rng.chance(1, 2)).collect();
@@ -210,7 +213,7 @@ fn run_c19(ctx: &mut Ctx, rep: &mut Report) {
         // Leg 2: keepalive the kernel rejects (no hooks involved) and an accepted value as control.
         for (ka, expect_fail) in [(40_000u64, true), (600u64, false)] {
             let mut srv = match start_two_listener_server(ctx, Some(Duration::from_secs(ka)), false, 0) {
-                Ok(s) => s, Err(e) => { rep.inconclusive(format!("server start: {e}")); return }
+                Ok(s) => s, Err(e) => { rep.note(format!("server start failed, round skipped: {e}")); rep.count("server_start_failures", 1); std::thread::sleep(Duration::from_millis(200)); continue }
             };
             if srv.install(&hooks, &Model::rand(&mut rng)).is_err() { rep.inconclusive("update failed"); return }
             let a = srv.rtr_addr;
